@@ -735,3 +735,181 @@ def rule_D6(F, R):
         else:
             R.ok("D6", "%s fields: %s" % (im["self"], [f["name"] for f in adt["variants"][0]["fields"]]), loc(adt["sp"]))
     R.floor("D6", "SQLite storage handle structs", n, 1)
+    # the layers above the storage: TaskDb and Replica are per-handle objects as well; replica data kept in
+    # them between transactions is not updated by another handle's commit
+    DERIVED_OK = {("replica::Replica", "depmap"): "derived data, rebuilt on request (dependency_map(force)) and dropped by every method of this handle that writes tasks (rule M9)"}
+    m = 0
+    for name in ("taskdb::TaskDb", "replica::Replica"):
+        adt = F.adts.get(name)
+        if adt is None:
+            R.missing("D6", "struct %s" % name)
+            continue
+        m += 1
+        bad = []
+        for f in adt["variants"][0]["fields"]:
+            if (name, f["name"]) in DERIVED_OK:
+                continue
+            if re.search(r"uuid::Uuid|TaskMap|operation::Operation|HashMap<|Vec<|BTreeMap<|HashSet<|WorkingSet|DependencyMap", f["ty"]):
+                bad.append((f["name"], f["ty"]))
+        if bad:
+            R.violation("D6", name, "data-cached-in-handle:%s" % bad[0][0], "%s keeps `%s: %s` between transactions: decisions taken from it ignore what another handle on the same database has committed since (a working-set entry added twice, or a re-opened task not put back)" % (name, bad[0][0], bad[0][1]), loc(adt["sp"]))
+        else:
+            R.ok("D6", "%s fields: %s" % (name, [f["name"] for f in adt["variants"][0]["fields"]]), loc(adt["sp"]))
+    R.floor("D6", "per-handle structs above the storage", m, 2)
+
+
+def rule_Q6(F, R):
+    R.begin("Q6", "in-memory transactions read their own writes: the committed data of the storage (`storage.data`) is touched only by the transaction's view accessors (which prefer the transaction's private copy) and by commit; every StorageTxn method goes through the view. A read of the committed data from inside a transaction misses what the same transaction has written (a snapshot made at the end of a sync would lack the versions just applied)")
+    n = 0
+    bad = 0
+    for p, b in sorted(F.bodies.items()):
+        if not ("storage::inmemory" in p) or not b.get("blocks"):
+            continue
+        # only code that holds a transaction: first parameter (or captured self) of type Txn
+        tys = " ".join(l["ty"] for l in b["locals"])
+        if "storage::inmemory::Txn" not in tys:
+            continue
+        is_view = b["kind"] == "AssocFn" and re.search(r"^&(mut )?('\w+ )?storage::inmemory::Data$", (b.get("sig_out") or "").replace("'_ ", ""))
+        is_commit = F.owner(p).endswith("::commit") or p.endswith("::commit")
+        touched = []
+        for bi, bl in enumerate(b["blocks"]):
+            if bl["cleanup"]:
+                continue
+
+            def places():
+                for st in bl["s"]:
+                    if st["k"] == "assign":
+                        yield st["l"], st["sp"]
+                        r = st["r"]
+                        for key in ("p",):
+                            if isinstance(r.get(key), dict) and "l" in r[key]:
+                                yield r[key], st["sp"]
+                        for key in ("o", "a", "b"):
+                            o = r.get(key)
+                            if isinstance(o, dict):
+                                q = op_place(o)
+                                if q:
+                                    yield q, st["sp"]
+                        for o in r.get("ops", []):
+                            q = op_place(o)
+                            if q:
+                                yield q, st["sp"]
+                t = bl["t"]
+                if t and t["k"] == "call":
+                    for a in t["args"]:
+                        q = op_place(a)
+                        if q:
+                            yield q, t["sp"]
+                if t and t["k"] == "drop" and isinstance(t.get("p"), dict):
+                    yield t["p"], t["sp"]
+            for (pl, sp) in places():
+                names = [e.get("n") for e in pl["p"] if isinstance(e, dict) and "n" in e]
+                for k in range(len(names) - 1):
+                    if names[k] == "storage" and names[k + 1] == "data":
+                        touched.append(sp)
+        if not touched:
+            continue
+        n += 1
+        if is_view or is_commit:
+            R.ok("Q6", "%s touches the committed data (%s)" % (p, "view accessor" if is_view else "commit"), where(b, sp=touched[0]))
+        else:
+            bad += 1
+            R.violation("Q6", F.owner(p), "committed-data-read-in-transaction", "%s reads `storage.data` directly instead of the transaction's view: it does not see what this transaction has already written" % p.split("::")[-1], where(b, sp=touched[0]))
+    R.floor("Q6", "functions of the in-memory transaction that touch the committed data (view accessors + commit)", n, 3)
+
+
+def _split_top(s):
+    out, depth, cur = [], 0, ""
+    for ch in s:
+        if ch == "(":
+            depth += 1
+        elif ch == ")":
+            depth -= 1
+        if ch == "," and depth == 0:
+            out.append(cur)
+            cur = ""
+        else:
+            cur += ch
+    if cur.strip():
+        out.append(cur)
+    return [x.strip() for x in out]
+
+
+def rule_Q5(F, R):
+    R.begin("Q5", "schema upgrades keep the stored data: following the SQL of storage::sqlite::schema statement by statement over a model of the tables, no stored (non-generated) column is dropped, no table holding stored columns is dropped unless every such column was copied to its successor first, and a table rebuild (INSERT INTO new (..) SELECT .. FROM old) names every stored column the two tables share. A column left out of the copy comes back with its default: after `synced` is lost every synchronised operation is pending again")
+    import roles
+    stmts = []
+    for p, b in F.bodies.items():
+        if "storage::sqlite::schema" not in p or not b.get("blocks") or b["kind"] not in ("Fn", "AssocFn"):
+            continue
+        if not re.search(r"upgrade", p):
+            continue
+        c = cfg_of(b)
+        for (i, sv) in roles.sql_in_body(F, b):
+            if re.match(r"^\s*(CREATE|ALTER|DROP|INSERT)\b", sv, re.I):
+                t = c.term(i)
+                stmts.append(((t["sp"].get("l", 0) if t else 0), " ".join(sv.replace("\\n", " ").replace("\\t", " ").split()), p, i))
+    stmts.sort(key=lambda x: (x[0], x[1]))
+    if not R.floor("Q5", "schema statements in the upgrade functions", len(stmts), 6):
+        return
+    tables = {}
+    copied = {}      # old table -> set of stored columns copied out of it
+    nrebuild = 0
+    for (line, sql, p, i) in stmts:
+        w = where(F.bodies[p], i)
+        m = re.match(r"CREATE TABLE (IF NOT EXISTS )?(\w+) \((.*)\)\s*;?$", sql, re.I)
+        if m:
+            name = m.group(2)
+            if m.group(1) and name in tables:
+                continue
+            cols = {}
+            for d in _split_top(m.group(3)):
+                cn = d.split()[0]
+                if cn.upper() in ("PRIMARY", "UNIQUE", "CHECK", "FOREIGN", "CONSTRAINT"):
+                    continue
+                cols[cn] = not re.search(r"GENERATED ALWAYS", d, re.I)
+            tables[name] = cols
+            continue
+        m = re.match(r"ALTER TABLE (\w+) ADD COLUMN (\w+)(.*)$", sql, re.I)
+        if m:
+            tables.setdefault(m.group(1), {})[m.group(2)] = not re.search(r"GENERATED ALWAYS", m.group(3), re.I)
+            continue
+        m = re.match(r"ALTER TABLE (\w+) DROP COLUMN (\w+)", sql, re.I)
+        if m:
+            t_, c_ = m.group(1), m.group(2)
+            if tables.get(t_, {}).get(c_, True):
+                R.violation("Q5", p, "stored-column-dropped:%s.%s" % (t_, c_), "the upgrade drops the stored column %s.%s: its contents are lost" % (t_, c_), w)
+            else:
+                R.ok("Q5", "dropped column %s.%s is generated (holds no data)" % (t_, c_), w)
+            tables.get(t_, {}).pop(c_, None)
+            continue
+        m = re.match(r"ALTER TABLE (\w+) RENAME TO (\w+)", sql, re.I)
+        if m:
+            tables[m.group(2)] = tables.pop(m.group(1), {})
+            continue
+        m = re.match(r"INSERT INTO (\w+) \(([^)]*)\) SELECT (.*?) FROM (\w+)", sql, re.I)
+        if m and m.group(4) in tables and m.group(1) in tables:
+            nrebuild += 1
+            new, old = m.group(1), m.group(4)
+            named = {x.strip() for x in m.group(2).split(",")}
+            shared = {cn for cn, stored in tables[old].items() if stored and tables[new].get(cn)}
+            missing = sorted(shared - named)
+            copied.setdefault(old, set()).update(named)
+            if missing:
+                R.violation("Q5", p, "column-not-copied:%s.%s" % (new, missing[0]), "the rebuild of table %s copies (%s) from %s and leaves out the stored column `%s`: every row gets the column's default instead of its value" % (new, ", ".join(sorted(named)), old, missing[0]), w)
+            else:
+                R.ok("Q5", "rebuild of %s copies every shared stored column of %s" % (new, old), w)
+            continue
+        m = re.match(r"DROP TABLE (IF EXISTS )?(\w+)", sql, re.I)
+        if m:
+            name = m.group(2)
+            stored = {cn for cn, s in tables.get(name, {}).items() if s}
+            lost = sorted(stored - copied.get(name, set()))
+            if name in tables and lost:
+                R.violation("Q5", p, "table-dropped:%s" % name, "the upgrade drops table %s whose stored column `%s` was not copied anywhere" % (name, lost[0]), w)
+            else:
+                R.ok("Q5", "dropped table %s had been copied" % name, w)
+            tables.pop(name, None)
+            continue
+    R.ok("Q5", "schema model after the upgrades: %s" % "; ".join("%s(%s)" % (t_, ", ".join(sorted(cs))) for t_, cs in sorted(tables.items())), None)
+    R.info("Q5", "table rebuilds examined: %d" % nrebuild)
